@@ -199,6 +199,7 @@ pub struct CondModel {
     pub bad: Mutex<Vec<String>>,
     /// number of states at the depth bound on which the invariant was evaluated (guards against a silently unchecked last layer)
     pub checked_last: std::sync::atomic::AtomicU64,
+    pub monitor: std::sync::Arc<HangMonitor>,
 }
 
 impl Model for CondModel {
@@ -215,6 +216,7 @@ impl Model for CondModel {
     }
     fn next_state(&self, s: &St, a: Act) -> Option<St> {
         self.transitions.fetch_add(1, std::sync::atomic::Ordering::Relaxed);
+        let _watch = self.monitor.enter(|| format!("{:?} on {}", a, s.render));
         let mut cond = s.cond.clone();
         let mut reference = s.reference.clone();
         let r = catch(|| a.apply(&mut cond));
@@ -291,7 +293,8 @@ fn engines() -> Vec<EngineCase> {
 }
 
 pub fn run(tier: Tier) -> i32 {
-    let rep = Report::new("C20", tier, "model_checking");
+    let rep: &'static Report = Box::leak(Box::new(Report::new("C20", tier, "model_checking")));
+    let monitor = std::sync::Arc::new(HangMonitor::start(rep, "C20 setter history"));
     let depth: u8 = tier.pick(2, 3);
     rep.set_rule("HIST (stateright BFS): all histories of real Condition setter calls up to the depth bound over the listed value alphabet, on V0 and a generated 2-stream voice; states merged by (depth, Debug rendering of the real Condition); a state is non-trivial if it differs from the initial rendering; invariant: every getter equals the clamped reference after every call");
     rep.assume("f64 arguments are the 12-value alphabet {0,-0,±1,.5,1e-7,5e-324,±1e300,2,±24}; usize {0,1,2,48000,MAX}; other values are not explored");
@@ -310,6 +313,7 @@ pub fn run(tier: Tier) -> i32 {
                 transitions: Default::default(),
                 bad: Mutex::new(vec![]),
                 checked_last: Default::default(),
+                monitor: monitor.clone(),
             };
             let checker = model.checker().threads(threads).target_max_depth(depth as usize + 2).spawn_bfs().join();
             let uniq = checker.unique_state_count() as u64;
@@ -348,7 +352,7 @@ pub fn run(tier: Tier) -> i32 {
     }
     rep.note("generated_states", json!(total_states));
     rep.guard(total_unique > 100, "fewer than 100 unique states");
-    rep.finish()
+    rep.finish_ref()
 }
 
 pub fn replay(v: &Value) -> i32 {
